@@ -58,9 +58,9 @@ def _ctx(sheet):
     return aliases.settings_header, _SETTINGS_COLS
 
 
-def c13_headers(pair: int, with_lang: bool, up0: bool, up1: bool, up2: bool, lead: int, trail: int, t0: int, t1: int) -> bool:
+def c13_headers(pair: int, with_lang: bool, up0: bool, up1: bool, up2: bool, lead: int, trail: int, dsp: int, t0: int, t1: int) -> bool:
     """
-    vpre: 0 <= lead <= 2 and 0 <= trail <= 2
+    vpre: 0 <= lead <= 2 and 0 <= trail <= 2 and 0 <= dsp <= 3
     vpre: 33 <= t0 <= 126 and t0 != 58 and 33 <= t1 <= 126 and t1 != 58
     vpost: _ == True
     """
@@ -77,7 +77,8 @@ def c13_headers(pair: int, with_lang: bool, up0: bool, up1: bool, up2: bool, lea
         if sheet == "settings":
             return True
         canon_h = canon + "::" + lang
-        var_h = v + "::" + lang
+        # optional spaces around the language delimiter (documented)
+        var_h = v + (" " if dsp & 1 else "") + "::" + (" " if dsp & 2 else "") + lang
     else:
         canon_h, var_h = canon, v
     _n1, tok1 = process_header(header=canon_h, use_double_colon=True, header_aliases=al, header_columns=cols)
@@ -93,7 +94,7 @@ specialise(
     timeout=300,
     kernel=K[:2],
     shims=(),
-    symbolic="upper/lower case of the first three characters (3 booleans), 0-2 leading and trailing spaces, language suffix present (boolean) with a 2-character symbolic language token",
+    symbolic="upper/lower case of the first three characters (3 booleans), 0-2 leading and trailing spaces, spaces before/after the language delimiter (symbolic bit pair), language suffix present (boolean) with a 2-character symbolic language token",
     bounds="one documented alias pair per instance",
     weight=40,
 )
@@ -188,9 +189,9 @@ PERMS = [(0, 1, 2, 3), (3, 2, 1, 0), (1, 0, 3, 2), (2, 3, 0, 1), (0, 2, 1, 3), (
 COLS = ["type", "name", "label", "relevant"]
 
 
-def c13_layout(perm: int, extra_col: bool, blank_at: int, n_blank: int, sheet_swap: bool, l0: int, l1: int) -> bool:
+def c13_layout(perm: int, extra_col: bool, blank_at: int, n_blank: int, c_blank: int, sheet_swap: bool, l0: int, l1: int) -> bool:
     """
-    vpre: 0 <= perm <= 5 and 0 <= blank_at <= 3 and 0 <= n_blank <= 2
+    vpre: 0 <= perm <= 5 and 0 <= blank_at <= 3 and 0 <= n_blank <= 2 and 0 <= c_blank <= 2
     vpre: 33 <= l0 <= 126 and l0 != 36 and 33 <= l1 <= 126 and l1 != 36
     vpost: _ == True
     """
@@ -217,14 +218,15 @@ def c13_layout(perm: int, extra_col: bool, blank_at: int, n_blank: int, sheet_sw
 
     rows2 = [reorder(r) for r in rows]
     rows2 = rows2[:blank_at] + [{} for _ in range(n_blank)] + rows2[blank_at:]
+    ch2 = [{} for _ in range(c_blank)] + [dict(c) for c in ch]
     var = {}
     if sheet_swap:
-        var["choices"] = ch
+        var["choices"] = ch2
         var["survey"] = rows2
         var["_notes"] = [{"a": "b"}]
     else:
         var["survey"] = rows2
-        var["choices"] = ch
+        var["choices"] = ch2
     var_wb = {k: v for k, v in var.items() if not k.startswith("_")}
     var_wb["sheet_names"] = list(var.keys())
     s2, w2, _j2 = build_survey(var_wb)
@@ -239,7 +241,11 @@ def c13_layout(perm: int, extra_col: bool, blank_at: int, n_blank: int, sheet_sw
         ok = False
         for r in range(2, 6):
             if ("[row : " + str(r) + "]") in a:
-                shifted = a.replace("[row : " + str(r) + "]", "[row : " + str(r + (n_blank if blank_at <= r - 2 else 0)) + "]")
+                if "'choices' sheet" in a:
+                    shift = c_blank
+                else:
+                    shift = n_blank if blank_at <= r - 2 else 0
+                shifted = a.replace("[row : " + str(r) + "]", "[row : " + str(r + shift) + "]")
                 if shifted == b:
                     ok = True
         if not ok:
@@ -255,7 +261,7 @@ specialise(
     timeout=500,
     kernel=K[2:],
     shims=("S1", "S2", "S3", "S4"),
-    symbolic="blank-row insertion index (0..3) and count (0..2), unknown plain column present (boolean), sheet order swapped + underscore sheet added (boolean), 2-character label tracer",
+    symbolic="blank-row insertion index (0..3) and count (0..2) in the survey sheet, blank rows on top of the choices sheet (0..2), unknown plain column present (boolean), sheet order swapped + underscore sheet added (boolean), 2-character label tracer",
     bounds="column permutation fixed per instance (6 permutations of 4 columns); 4-row survey with an unlabeled group and an image without max-pixels (two row-numbered warnings) and a choice without label",
     weight=150,
 )
